@@ -31,8 +31,8 @@ from ..engine.report import AnalysisError, Run
 from ..engine.resolver import FuncInfo, Program, contains_await, walk_no_nested
 from ..engine.sympath import Effect, Path, SymUnsupported
 from ..engine.util import u
-from ._c14_util import (HelperGraph, Signature, Walk, assign_roles, callback_target, closure_reads, effect_target,
-                        param_uses, rebound_after, seg, splice)
+from ._c14_util import (HelperGraph, Signature, Walk, assign_roles, callback_target, caught_by, closure_reads,
+                        effect_target, param_uses, rebound_after, seg, splice)
 
 MOD = "microgrid._power_distributing.power_distributing"
 ACTOR = f"{MOD}:PowerDistributingActor"
@@ -190,6 +190,11 @@ def bind_roles(prog: Program) -> tuple[str, str]:
 
 
 FINISHED = "<the finished task>"
+
+
+def _offset(source: str, lineno: int, col: int) -> int:
+    lines = source.splitlines(keepends=True)
+    return sum(len(x) for x in lines[:lineno - 1]) + len(lines[lineno - 1].encode("utf-8")[:col].decode("utf-8"))
 
 
 def _callback_ok(cb: ast.AST, nested: dict[str, ast.FunctionDef], handler: str, hsig: Signature, hr: dict[str, str],
@@ -577,7 +582,7 @@ def check_handler(run: Run, prog: Program, ctx: Ctx) -> None:  # noqa: C901
     slot = f"{PROC}[{key}]"
     bad: dict[str, list[tuple[Path, Any]]] = {k: [] for k in (
         "raise", "decide", "odd", "escape", "start", "nostart", "clear_pending", "clear", "keyed", "write",
-        "cb_site", "cbarg_site", "cb_twice")}
+        "partial", "cb_site", "cbarg_site", "cb_twice")}
     look = ("get", "keys") + (("add_done_callback",) if ctx.deferred else ())
     check_attach(fn, w, [p for p in w.paths if p.exit != "raise"], ctx, prog, bad)
     only_exception = False
@@ -616,6 +621,30 @@ def check_handler(run: Run, prog: Program, ctx: Ctx) -> None:  # noqa: C901
             if e not in pops and not (e.node.func.attr in ("get", "keys") and u(e.node.func.value) == PROC) \
                     and not (e.node.func.attr in look and u(e.node.func.value).startswith(PROC + "[")):  # type: ignore[attr-defined]
                 bad["write"].append((p, e.node))
+        # nothing that is evaluated before the hand-over / the clearing can raise on the shape of the exception
+        # the distribution ended with (the handler must be total over *every* exception, not the usual ones)
+        order = {id(e): i for i, e in enumerate(p.effects)}
+        duties = starts + [e for _t, e in dels] + pops + [
+            e for e in _calls_on(p, PEND) if e.node.func.attr == "pop" and u(e.node.func.value) == PEND]  # type: ignore[attr-defined]
+        for h in p.effects:
+            if h.kind != "mayraise":
+                continue
+            tries, fins, _f = getattr(h, "where", ((), (), ()))
+            lost = []
+            for d in duties:
+                if order[id(d)] < order[id(h)]:
+                    continue
+                d_tries, _dfins, d_final = getattr(d, "where", ((), (), ()))
+                inside = {t for t, _names in d_tries}
+                # the error is caught by a try that the duty lies behind, or the duty is the `finally` of a try
+                # the operation lies in: then it is carried out all the same
+                kept = any(t not in inside and caught_by(h.errors, names) for t, names in tries) \
+                    or bool(set(fins) & set(d_final))                       # type: ignore[attr-defined]
+                if not kept:
+                    lost.append(d)
+            if lost:
+                bad["partial"].append((p, f"`{w.ex.show(h.node)[:100]}` (line {h.lineno}) can raise "
+                                       f"{' / '.join(h.errors)}: {h.why}"))                 # type: ignore[attr-defined]
         if pending is True:
             n_yes += 1
             ok = len(starts) == 1
@@ -650,6 +679,19 @@ def check_handler(run: Run, prog: Program, ctx: Ctx) -> None:  # noqa: C901
     _agg(run, "C14.NEXT", fn, "decision = membership of the key in the pending requests",
          "the pending/clear decision is not a membership test of the group key on the pending requests",
          bad["odd"])
+    _agg(run, "C14.NEXT", fn, "nothing evaluated before the hand-over can raise on the shape of the caught exception",
+         "an operation on the exception the distribution ended with (or on a value derived from it), evaluated "
+         "before the pending/clear decision is carried out, raises for some exceptions -- one built without "
+         "arguments (`asyncio.TimeoutError()`, a bare `raise ValueError`), with an empty message, of a class "
+         "without that attribute, with a cause of None ...  Raised inside the done-callback, it aborts the handler: "
+         "the waiting request is not handed over and the finished task stays in _processing_tasks, so the group is "
+         "blocked for good (every later request is parked behind a task that is gone).  The same holds for any "
+         "subscript of `.args` / of the message, attributes that not every exception has, unpacking of `.args`, "
+         "`str.format` / `%` / f-string format specs over the exception, `', '.join(exc.args)`, int() / float() / "
+         "next() / min() on such values, `task.exception().<attr>` without a None test.  Use total operations "
+         "(`str(exc)`, `repr(exc)`, `type(exc).__name__`, `exc.args`, `exc.args[0] if exc.args else ...`, getattr "
+         "with a default, lazy %-arguments of the logger), catch the error around the operation, or carry out the "
+         "decision in a `finally`", bad["partial"])
     _agg(run, "C14.NEXT", fn, "task.result() inside try/except Exception",
          "an exception of the finished distribution escapes the completion handler: "
          "the group stays marked as in flight forever", bad["escape"])
@@ -921,6 +963,26 @@ def structural_controls(prog: Program) -> list[tuple[str, str, str, str, str]]: 
             word = "return" if m.name == handler else "raise"
             add(f"{word} in the except arm", [(last, f"{seg(src, last)}\n{ind(last)}{word}")], "C14.NEXT")
             break
+    # the except arm around task.result() looks into the exception it caught before the decision is taken: a
+    # subscript of its arguments / an attribute that not every exception has (not a defect when the decision is
+    # taken in a `finally`)
+    for m, n in every:
+        if isinstance(n, ast.Try) and n.handlers and any(
+                isinstance(c, ast.Call) and isinstance(c.func, ast.Attribute) and c.func.attr == "result" and not c.args
+                for b in n.body for c in ast.walk(b)) and not any(
+                isinstance(t, ast.Try) and t.finalbody and any(x is n for x in ast.walk(t)) for t in ast.walk(m.node)):
+            h = n.handlers[0]
+            first = h.body[0]
+            name = h.name or "c14_exc"
+            kind = seg(src, h.type) if h.type is not None else "BaseException"
+            body = src[_offset(src, first.lineno, first.col_offset):_offset(src, h.end_lineno, h.end_col_offset)]  # type: ignore[arg-type]
+            for title, probe in (("the except arm subscripts the arguments of the caught exception", f"{name}.args[0]"),
+                                 ("the except arm reads an attribute that not every exception has", f"{name}.errno"),
+                                 ("the except arm formats the caught exception with a field lookup",
+                                  f"'{{0.code}}'.format({name})")):
+                add(title, [(h, f"except {kind} as {name}:\n{ind(first)}c14_detail = {probe}\n{ind(first)}{body}")],
+                    "C14.NEXT")
+            break
     cbs = [n for m, n in every if isinstance(n, ast.Expr) and isinstance(n.value, ast.Call)
            and isinstance(n.value.func, ast.Attribute) and n.value.func.attr == "add_done_callback"]
     # (the receiver stays: when the callers attach the callback, it is the start of the request)
@@ -1082,7 +1144,11 @@ def check(run: Run, prog: Program, tier: str) -> str:
     run.rule("C14.LATEST", "the pending slot is only ever overwritten with the incoming request, on every "
              "in-flight path")
     run.rule("C14.NEXT", "the completion handler reaches the pending/clear decision on the normal and on "
-             "every Exception path, pops+starts the pending request, clears the marker only otherwise")
+             "every Exception path, pops+starts the pending request, clears the marker only otherwise; nothing "
+             "evaluated before the decision is carried out can raise on the shape of the exception the task ended "
+             "with (may-raise analysis of the operations on the caught exception: subscripts of .args / the "
+             "message, attributes not every exception has, unpacking, format fields and specs, ...), unless the "
+             "error is caught before the decision or the decision is taken in a `finally`")
     run.rule("C14.KEY", "all bookkeeping is keyed by frozenset(request.component_ids)")
     run_rules(run, prog)
     run.floor("C14.ONLY", 9)
